@@ -42,6 +42,7 @@ def modelled : List (String × String) := [
   ("PoolRegistration", "Model/Pool.lean"), ("SingleHostAddr", "Model/Pool.lean"),
   ("SingleHostName", "Model/Pool.lean"), ("MultiHostName", "Model/Pool.lean"),
   ("AlonzoMetadata", "Model/Metadata.lean"), ("AuxiliaryData", "Model/Metadata.lean"),
+  ("ShelleyMarryMetadata", "Model/Metadata.lean (normShelleyMa: `__post_init__`)"),
   ("Redeemer", "Model/WitnessCodec.lean"), ("RedeemerKey", "Model/WitnessCodec.lean"),
   ("RedeemerValue", "Model/WitnessCodec.lean"), ("RedeemerTag", "Model/WitnessCodec.lean"),
   ("VerificationKeyWitness", "Model/WitnessCodec.lean"), ("TransactionWitnessSet", "Model/WitnessCodec.lean"),
